@@ -62,6 +62,26 @@ Theorem C02_blocks_partition :
       multi_block_energy 0%R Rplus ee blocks = single_block_energy 0%R Rplus ee nElements).
 Proof. exact blocks_partition_full. Qed.
 
+(* gather semantics of FunctionSpace.evaluate_on_block / integrate_over_block (every per-element array is indexed with the
+   same block index; values are contracted with vols[block]): the block integral is the sum over the listed elements of
+   each element's values against its OWN volumes; it is invariant under any reordering of the block's id list; blocks
+   listing every element exactly once (any order) add up to the integral over slice(None); row k of evaluate_on_block
+   is the kernel of element block[k]. *)
+Theorem C02_integrate_over_block_gather :
+  forall (E : Type) (edef : E) (kernel vols : E -> list R), (forall e, length (kernel e) = length (vols e)) ->
+  (forall elems block,
+      integrate_over_block 0%R Rplus Rmult edef kernel vols elems block
+      = block_energy 0%R Rplus (element_energy 0%R Rplus Rmult edef kernel vols elems) block)
+  /\ (forall elems block block', Permutation block block' ->
+      integrate_over_block 0%R Rplus Rmult edef kernel vols elems block
+      = integrate_over_block 0%R Rplus Rmult edef kernel vols elems block')
+  /\ (forall elems blocks, Permutation (concat blocks) (seq 0 (length elems)) ->
+      fold_left (fun acc ids => (acc + integrate_over_block 0%R Rplus Rmult edef kernel vols elems ids)%R) blocks 0%R
+      = integrate_over_block 0%R Rplus Rmult edef kernel vols elems (seq 0 (length elems)))
+  /\ (forall elems block k i, nth_error block k = Some i ->
+      nth_error (evaluate_on_block edef kernel elems block) k = Some (kernel (nth i elems edef))).
+Proof. exact gather_full. Qed.
+
 (* NOT PROVED: "the assembled matrix equals the second derivative of the total energy w.r.t. the unknowns" in full, i.e.
      d2/dUu2 [ sum_e E_e(G_e (create_field Uu Ubc)) ] = P^T (sum_e G_e^T (d2 E_e) G_e) P,
    because it needs (a) that jax.hessian(integrate_element_from_local_field) is the Hessian of the element energy (JAX autodiff,
@@ -96,4 +116,5 @@ Print Assumptions C02_assembly_is_restriction.
 Print Assumptions C02_assembly_symmetric.
 Print Assumptions C02_assembly_is_PtKP.
 Print Assumptions C02_blocks_partition.
+Print Assumptions C02_integrate_over_block_gather.
 Print Assumptions C02_refs_resolve.
